@@ -107,7 +107,7 @@ package boltz
 //@   ensures[nothing-else-changes] rcOnly1(rsB(symbol, tx, str(id)), prepend(TypeString, str(link)))
 
 //@ func (*RefCountedLinkedSetSymbol).unlink
-//@   props C07 C05
+//@   props C07 C05 C06
 //@   errflow
 //@   nosafety
 //@   modifies bktHas, any errorz.ErrorHolderImpl.Err
